@@ -1,6 +1,7 @@
 From Coq Require Extraction ExtrOcamlBasic.
-From Rpgp Require Import Base.Octets Base.Res Kdf.Kdf Safe.Checked.
+From Rpgp Require Import Base.Octets Base.Res Kdf.Kdf Safe.Checked Wire.Fmt Wire.Packets Wire.Wire.
 Extraction Language OCaml.
 Separate Extraction Byte.to_N Byte.of_N
   Checked.session_key_v3 Checked.session_key_v6 Checked.skesk4_plain Checked.kw_out_len
-  Checked.ecdh_unpad_checked Checked.aead_setup Checked.key_size.
+  Checked.ecdh_unpad_checked Checked.aead_setup Checked.key_size
+  Fmt.gen Packets.body_fmt Wire.packet.
